@@ -416,3 +416,63 @@ pub fn chain_alphabet() -> Vec<Entry> {
     }
     v
 }
+
+/// Every RDATA shape under ONE envelope (a.<origin> 300 IN): index = shape index. Used for files
+/// whose records share an RRset (same owner, type, TTL, class; different RDATA).
+pub fn rrset_alphabet() -> Vec<Entry> {
+    let env = (o(&["a"]), 300u32, "IN");
+    rdata_shapes().iter().map(|s| entry(&env, s)).collect()
+}
+
+/// Ordered pairs (and, for types with at most 4 shapes, ordered triples) of DISTINCT shapes of one type.
+pub fn rrset_tuples(alpha: &[Entry]) -> Vec<Vec<usize>> {
+    let mut out = vec![];
+    let n = alpha.len();
+    for i in 0..n {
+        for j in 0..n {
+            if i == j || alpha[i].rec.rtype != alpha[j].rec.rtype {
+                continue;
+            }
+            out.push(vec![i, j]);
+            let group = alpha.iter().filter(|e| e.rec.rtype == alpha[i].rec.rtype).count();
+            if group <= 4 {
+                for k in 0..n {
+                    if k != i && k != j && alpha[k].rec.rtype == alpha[i].rec.rtype {
+                        out.push(vec![i, j, k]);
+                    }
+                }
+            }
+        }
+    }
+    out
+}
+
+/// Every RDATA shape in the classes CH and HS (a.<origin> 300 CH|HS): index = shape * 2 + class.
+pub fn class_alphabet() -> Vec<Entry> {
+    let mut v = vec![];
+    for s in rdata_shapes().iter() {
+        for c in ["CH", "HS"] {
+            v.push(entry(&(o(&["a"]), 300u32, c), s));
+        }
+    }
+    v
+}
+
+/// Depth-4 chains: shapes A / MX / TXT / AAAA at positions 1..4, 6 envelopes = owners (apex, a) x
+/// (TTL, class) in {300 IN, 86400 IN, 300 CH}. Index = position * 6 + envelope.
+pub const CHAIN4_ENVS: usize = 6;
+pub fn chain4_alphabet() -> Vec<Entry> {
+    let shapes = rdata_shapes();
+    let owners = [origin(), o(&["a"])];
+    let tc: [(u32, &'static str); 3] = [(300, "IN"), (86400, "IN"), (300, "CH")];
+    let mut v = vec![];
+    for s in ["A 192.0.2.1", "MX #0", "TXT #0", "AAAA 2001:db8::1"] {
+        let sh = shapes.iter().find(|x| x.1 == s).unwrap();
+        for ow in &owners {
+            for (ttl, class) in tc {
+                v.push(entry(&(ow.clone(), ttl, class), sh));
+            }
+        }
+    }
+    v
+}
